@@ -385,6 +385,11 @@ func (c *Cluster) listOffsets(b *Broker, r *Req) rc.Msg {
 				pm["error_code"] = code
 			} else {
 				off, tsOut := p.OffsetForTime(ts)
+				if ts == -1 && ver >= 2 && r.Body.I8("isolation_level") == 1 && p.OpenTxn > 0 {
+					// read_committed: "latest" is the last stable offset, below the
+					// records of transactions that are still open
+					off = p.LEO - p.OpenTxn
+				}
 				pm["offset"] = off
 				pm["timestamp"] = tsOut
 				pm["leader_epoch"] = p.Epoch
